@@ -183,102 +183,154 @@ func decoderRule(c *Ctx, rule string) {
 	}
 }
 
-// cascadeRule: parseField tries "null", then an integer parser of the platform int size converted with int(…), then a 64-bit float parser, then bool.
+// cascadeRule (SX): parseField tries "null", then an integer parser of the platform int size converted with int(…), then a 64-bit float
+// parser, then bool — read off the ordered decisions of its paths, whatever their syntactic arrangement.
 func cascadeRule(c *Ctx, rule string) {
 	fd := c.NeedDecl(rule, "parseField")
 	if fd == nil {
 		return
 	}
-	field := c.Info.Defs[fd.Type.Params.List[0].Names[0]]
-	type stage struct {
-		kind string
-		pos  token.Pos
-		idx  int
-	}
-	var stages []stage
-	for i, s := range fd.Body.List {
-		switch x := s.(type) {
-		case *ast.IfStmt:
-			if be, ok := unparen(x.Cond).(*ast.BinaryExpr); ok && be.Op == token.EQL && c.obj(be.X) == field {
-				if lit, ok := c.constString(be.Y); ok && lit == "null" {
-					r := singleReturn(x.Body)
-					good := r != nil && len(r.Results) == 2 && c.isNil(r.Results[0]) && c.isNil(r.Results[1])
-					c.Ob(rule, "parseField/null", x.Pos()).Check(good, "`null` yields (nil, nil)", "the null literal does not yield (nil, nil)")
-					stages = append(stages, stage{"null", x.Pos(), i})
-				}
-			}
-		case *ast.AssignStmt:
-			if len(x.Rhs) != 1 || len(x.Lhs) != 2 {
-				continue
-			}
-			call, ok := unparen(x.Rhs[0]).(*ast.CallExpr)
-			if !ok || len(call.Args) == 0 || c.obj(call.Args[0]) != field {
-				continue
-			}
-			val, errV := c.obj(x.Lhs[0]), c.obj(x.Lhs[1])
-			// the success test must be the next statement: if err == nil { return V, nil }
-			var succ *ast.IfStmt
-			if i+1 < len(fd.Body.List) {
-				succ, _ = fd.Body.List[i+1].(*ast.IfStmt)
-			}
-			succOK := func(want func(e ast.Expr) bool) bool {
-				if succ == nil || succ.Else != nil {
-					return false
-				}
-				be, ok := unparen(succ.Cond).(*ast.BinaryExpr)
-				if !ok || be.Op != token.EQL || c.obj(be.X) != errV || !c.isNil(be.Y) {
-					return false
-				}
-				r := singleReturn(succ.Body)
-				return r != nil && len(r.Results) == 2 && c.isNil(r.Results[1]) && want(r.Results[0])
-			}
-			switch c.calleeFull(call) {
-			case "strconv.ParseInt":
-				stages = append(stages, stage{"int", x.Pos(), i})
-				ob := c.Ob(rule, "parseField/int-stage", x.Pos())
-				bits, okb := c.constInt(call.Args[2])
-				want := c.intSize() * 8
-				conv := succOK(func(e ast.Expr) bool {
-					ce, ok := unparen(e).(*ast.CallExpr)
-					if !ok || len(ce.Args) != 1 || c.obj(ce.Args[0]) != val {
-						return false
-					}
-					tv, ok := c.Info.Types[ce.Fun]
-					return ok && tv.IsType() && types.Identical(tv.Type, types.Typ[types.Int])
-				})
-				switch {
-				case !okb || (bits != want && bits != 0):
-					ob.Fail("integer stage parses with bit size %d, the platform int has %d bits in this configuration: an in-range int falls through to the float stage or a too-large one is truncated", bits, want)
-				case !conv:
-					ob.Fail("integer stage does not return int(parsed) under `err == nil`")
-				default:
-					ob.Ok("ParseInt(field, base, %d) — the platform int size in this configuration — returned as int(…) when err == nil", bits)
-				}
-			case "strconv.Atoi":
-				stages = append(stages, stage{"int", x.Pos(), i})
-				c.Ob(rule, "parseField/int-stage", x.Pos()).Check(succOK(func(e ast.Expr) bool { return c.obj(e) == val }), "Atoi: platform int", "integer stage does not return the parsed int")
-			case "strconv.ParseFloat":
-				stages = append(stages, stage{"float", x.Pos(), i})
-				ob := c.Ob(rule, "parseField/float-stage", x.Pos())
-				bits, okb := c.constInt(call.Args[1])
-				ret := succOK(func(e ast.Expr) bool { return c.obj(e) == val })
-				switch {
-				case !okb || bits != 64:
-					ob.Fail("float stage parses with bit size %d in this configuration: the value is rounded to float32 precision before it is returned as float64 (0.1 becomes 0.10000000149011612)", bits)
-				case !ret:
-					ob.Fail("float stage does not return the parsed float64 under `err == nil`")
-				default:
-					ob.Ok("ParseFloat(field, 64): correctly rounded float64 in this configuration")
-				}
-			case "strconv.ParseBool":
-				stages = append(stages, stage{"bool", x.Pos(), i})
-				c.Ob(rule, "parseField/bool-stage", x.Pos()).Check(succOK(func(e ast.Expr) bool { return c.obj(e) == val }), "ParseBool result returned under `err == nil`", "bool stage does not return the parsed bool")
-			}
+	x := c.NewSX()
+	delete(x.NoInline, "parseField")
+	paths := x.Run(fd)
+	for _, p := range paths {
+		if p.Why != "" {
+			c.Ob(rule, "parseField", fd.Pos()).Undecided("body outside the path vocabulary: %s", p.Why)
+			return
 		}
 	}
+	field := c.Info.Defs[fd.Type.Params.List[0].Names[0]]
+	// stage of a decision term
+	stageOf := func(t Term) (string, *TCall) {
+		b, ok := t.(TBin)
+		if !ok || (b.Op != token.EQL && b.Op != token.NEQ) {
+			return "", nil
+		}
+		for _, pair := range [][2]Term{{b.X, b.Y}, {b.Y, b.X}} {
+			l, r := pair[0], pair[1]
+			if s, ok := isConstStringTerm(l); ok && s == "null" && isParamTerm(r, field) {
+				return "null", nil
+			}
+			if _, isNil := l.(TNil); isNil {
+				if pr, ok := r.(TProj); ok && pr.K == 1 {
+					if call, ok := pr.X.(TCall); ok && call.Fun != nil && len(call.Args) >= 1 && isParamTerm(call.Args[0], field) {
+						switch call.Fun.FullName() {
+						case "strconv.ParseInt", "strconv.Atoi":
+							return "int", &call
+						case "strconv.ParseFloat":
+							return "float", &call
+						case "strconv.ParseBool":
+							return "bool", &call
+						}
+					}
+				}
+			}
+		}
+		return "", nil
+	}
+	success := func(cd Cond) bool { // does this decision mean "stage succeeded"?
+		b := cd.T.(TBin)
+		return cd.Truth == (b.Op == token.EQL)
+	}
 	var order []string
-	for _, s := range stages {
-		order = append(order, s.kind)
+	seen := map[string]bool{}
+	for _, p := range paths {
+		conds := p.Conds()
+		var stages []string
+		okPath := true
+		for _, cd := range conds {
+			st, _ := stageOf(cd.T)
+			if st == "" {
+				c.Ob(rule, "parseField/decision", posOfNode(cd.Node)).Undecided("decision outside the cascade vocabulary: %s", c.termStr(cd.T))
+				okPath = false
+				break
+			}
+			stages = append(stages, st)
+		}
+		if !okPath {
+			return
+		}
+		if len(stages) > len(order) {
+			order = stages
+		}
+		// classify the path by its last decision
+		if len(conds) == 0 {
+			continue
+		}
+		last := conds[len(conds)-1]
+		st, call := stageOf(last.T)
+		if !success(last) {
+			// the all-failed path: error
+			good := p.End == "return" && len(p.Vals) == 2
+			if good {
+				_, n0 := p.Vals[0].(TNil)
+				_, n1 := p.Vals[1].(TNil)
+				good = n0 && !n1
+			}
+			c.Ob(rule, "parseField/failure", posOfNode(p.Node)).Check(good, "anything else is an error", "when every stage fails parseField does not return (nil, error)")
+			continue
+		}
+		if seen[st] {
+			c.Ob(rule, "parseField/"+st+"-stage", posOfNode(p.Node)).Fail("stage %s succeeds on two different paths", st)
+			continue
+		}
+		seen[st] = true
+		ob := c.Ob(rule, "parseField/"+st+"-stage", posOfNode(p.Node))
+		retOK := p.End == "return" && len(p.Vals) == 2
+		if retOK {
+			_, n1 := p.Vals[1].(TNil)
+			retOK = n1
+		}
+		if !retOK {
+			ob.Fail("a successful %s stage does not return (value, nil)", st)
+			continue
+		}
+		val := p.Vals[0]
+		switch st {
+		case "null":
+			_, isNil := val.(TNil)
+			ob.Check(isNil, "`null` yields (nil, nil)", "the null literal does not yield (nil, nil)")
+		case "int":
+			want := c.intSize() * 8
+			bits := int64(-1)
+			if call.Fun.FullName() == "strconv.Atoi" {
+				bits = want
+			} else if len(call.Args) == 3 {
+				if k, ok := constInt(simplify(call.Args[2])); ok {
+					bits = k
+				}
+			}
+			cv, isConv := val.(TConv)
+			conv := isConv && types.Identical(cv.To, types.Typ[types.Int]) && sameTerm(cv.X, TProj{*call, 0})
+			if call.Fun.FullName() == "strconv.Atoi" {
+				conv = sameTerm(val, TProj{*call, 0})
+			}
+			switch {
+			case bits != want && bits != 0:
+				ob.Fail("integer stage parses with bit size %d, the platform int has %d bits in this configuration: an in-range int falls through to the float stage or a too-large one is truncated", bits, want)
+			case !conv:
+				ob.Fail("integer stage does not return int(parsed)")
+			default:
+				ob.Ok("ParseInt(field, base, %d) — the platform int size in this configuration — returned as int(…)", bits)
+			}
+		case "float":
+			bits := int64(-1)
+			if len(call.Args) == 2 {
+				if k, ok := constInt(simplify(call.Args[1])); ok {
+					bits = k
+				}
+			}
+			switch {
+			case bits != 64:
+				ob.Fail("float stage parses with bit size %d in this configuration: the value is rounded to float32 precision before it is returned as float64 (0.1 becomes 0.10000000149011612)", bits)
+			case !sameTerm(val, TProj{*call, 0}):
+				ob.Fail("float stage does not return the parsed float64")
+			default:
+				ob.Ok("ParseFloat(field, 64): correctly rounded float64 in this configuration")
+			}
+		case "bool":
+			ob.Check(sameTerm(val, TProj{*call, 0}), "ParseBool result returned", "bool stage does not return the parsed bool")
+		}
 	}
 	ob := c.Ob(rule, "parseField/order", fd.Pos())
 	want := []string{"null", "int", "float", "bool"}
@@ -288,14 +340,11 @@ func cascadeRule(c *Ctx, rule string) {
 			good = false
 		}
 	}
-	if good {
-		ob.Ok("stages in order null < int < float < bool: an integer spelling is claimed by the int stage before the float stage can see it")
+	if good && len(seen) == 4 {
+		ob.Ok("stages are decided in the order null < int < float < bool: an integer spelling is claimed by the int stage before the float stage can see it")
 	} else {
 		ob.Fail("literal cascade is %v, expected %v (the int stage must come strictly before the float stage, or ints come back as floats)", order, want)
 	}
-	// final statement: error
-	last, ok := fd.Body.List[len(fd.Body.List)-1].(*ast.ReturnStmt)
-	c.Ob(rule, "parseField/failure", fd.Pos()).Check(ok && len(last.Results) == 2 && c.isNil(last.Results[0]) && !c.isNil(last.Results[1]), "anything else is an error", "parseField does not end in (nil, error)")
 }
 
 // utf8GuardRule, decided on the extracted transition table: ill-formed input ((RuneError,1), (RuneError,0)) must lead to an ERR exit
